@@ -486,6 +486,40 @@ func Go(site string, fn func()) {
 	s.spawn(site, true, site, fn)
 }
 
+// RunCallback runs fn, on the calling goroutine, as a library task: for
+// goroutines that the runtime starts on behalf of the code under test (timer
+// callbacks). It parks before fn's first instruction like any new task.
+//
+//go:norace
+func RunCallback(site string, fn func()) {
+	s := cur
+	if s == nil || s.finished {
+		fn()
+		return
+	}
+	raceDisable()
+	s.mu.Lock()
+	t := &Task{ID: len(s.tasks), Name: site, Parent: -1, Lib: true, Site: site, resume: make(chan struct{}), g: getg(), state: stRunning}
+	s.tasks = AppendNR(s.tasks, t)
+	s.Stats.Tasks++
+	s.Stats.LibTasks++
+	s.live++
+	s.mu.Unlock()
+	raceEnable()
+	s.register(t)
+	defer s.taskExit(t)
+	t.reqKind, t.reqObj = OpStart, 0
+	t.state = stParked
+	raceDisable()
+	<-t.resume
+	raceEnable()
+	if t.killed {
+		t.exiting = true
+		runtime.Goexit()
+	}
+	fn()
+}
+
 // GoTask starts a harness task (not a library goroutine).
 //
 //go:norace
